@@ -99,3 +99,32 @@ impl VerifNode {
         )
     }
 }
+
+// ---------------------------------------------------------------------------------------------
+// Quoting (`crate::quote`, C13): creating a quote, checking the node's own quote, and selecting
+// the quotes that are passed on to the swarm driver for historical verification
+// ---------------------------------------------------------------------------------------------
+
+/// `Node::create_quote_for_storecost` (crate-private associated fn).
+pub fn create_quote_for_storecost(
+    network: &Network,
+    address: &NetworkAddress,
+    quoting_metrics: &ant_evm::QuotingMetrics,
+    payment_address: &RewardsAddress,
+) -> std::result::Result<ant_evm::PaymentQuote, ant_protocol::error::Error> {
+    Node::create_quote_for_storecost(network, address, quoting_metrics, payment_address)
+}
+
+/// `crate::quote::verify_quote_for_storecost`; `true` = `Ok(())`.
+pub fn verify_quote_for_storecost(
+    network: &Network,
+    quote: ant_evm::PaymentQuote,
+    address: &NetworkAddress,
+) -> bool {
+    crate::quote::verify_quote_for_storecost(network, quote, address).is_ok()
+}
+
+/// `crate::quote::quotes_verification`.
+pub async fn quotes_verification(network: &Network, quotes: Vec<(PeerId, ant_evm::PaymentQuote)>) {
+    crate::quote::quotes_verification(network, quotes).await
+}
